@@ -57,7 +57,7 @@ def third(kc, variant):
         d = [(F(1), F(0), F(0)), (F(0), F(-1), F(0)), (F(1), F(1), F(1))][variant % 3]
         return R.RHalfLine(A0 if variant % 2 == 0 else (F(0), F(0), F(0)), d)
     if kc == 'Point':
-        return R.RPoint(A0 if variant % 2 == 0 else (F(0), F(0), F(0)))
+        return R.RPoint(A0 if variant % 3 == 0 else (F(0), F(0), F(0)))
     if kc == 'ConvexPolygon':
         P = B.polygon('square', 'axis', origin=(-1, -1, 0) if variant % 2 else (-2, 0, F(1, 4)))
         r = B.rpoly(P)
@@ -131,7 +131,8 @@ TRIPLES_Q = [('Segment', 'Segment', 'Plane'), ('Line', 'Plane', 'Segment'), ('Se
              ('HalfLine', 'ConvexPolyhedron', 'Plane'), ('Point', 'ConvexPolygon', 'Line'), ('ConvexPolygon', 'Segment', 'Plane'),
              ('ConvexPolyhedron', 'Line', 'Plane'), ('ConvexPolyhedron', 'Segment', 'ConvexPolygon'), ('Segment', 'Segment', 'ConvexPolyhedron'),
              ('Line', 'Plane', 'ConvexPolygon'), ('Plane', 'Plane', 'ConvexPolyhedron'), ('HalfLine', 'Line', 'ConvexPolyhedron'),
-             ('Plane', 'ConvexPolyhedron', 'Plane'), ('ConvexPolygon', 'ConvexPolygon', 'Line'), ('ConvexPolyhedron', 'ConvexPolygon', 'Line')]
+             ('Plane', 'ConvexPolyhedron', 'Plane'), ('ConvexPolygon', 'ConvexPolygon', 'Line'), ('ConvexPolyhedron', 'ConvexPolygon', 'Line'),
+             ('ConvexPolygon', 'ConvexPolygon', 'Point', 2)]
 
 
 def families(tier, seed):
@@ -144,8 +145,9 @@ def families(tier, seed):
         K = c04.KINDS
         allt = [t for t in itertools.product(K, repeat=3) if not (t[0] in ('ConvexPolyhedron',) and t[1] == 'ConvexPolyhedron')]
         triples = TRIPLES_Q + rng.sample([t for t in allt if t not in TRIPLES_Q], 120)
-    for i, (ka, kb, kc) in enumerate(triples):
-        for v in ((i % 3,) if tier == 'quick' else (0, 1, 2)):
+    for i, tr in enumerate(triples):
+        ka, kb, kc = tr[:3]
+        for v in (((tr[3] if len(tr) > 3 else i % 3),) if tier == 'quick' else (0, 1, 2)):
             if ka == kb == 'Plane' and v == 1:
                 v = 0
             fams.append(Family('%s-%s-%s/v%d' % (ka, kb, kc, v), fam_triple, (ka, kb, kc, v)))
